@@ -442,7 +442,7 @@ class Check:
             cov.setdefault("rule", self.extra.get("rule", "one evaluation per obligation"))
         ev = dict(
             property_id=self.pid, tier=self.tier, seed=self.seed, level=self.level, coverage=cov,
-            assumptions=[GLOBAL_ASSUMPTIONS[k] for k in ("A1", "A2", "A3", "A4", "A5")] + self.assumptions,
+            assumptions=([] if self.level == "exploration" else [GLOBAL_ASSUMPTIONS[k] for k in ("A1", "A2", "A3", "A4", "A5")]) + self.assumptions,
             wall_s=round(wall, 3), violations=len(violations),
         )
         os.makedirs(os.path.join(OUT, "evidence"), exist_ok=True)
